@@ -98,6 +98,12 @@ func toNumber(v any) any {
 			return nil
 		}
 
+		// UnmarshalJSON accepts an underscore between the digits of an
+		// exponent ("1e1_0"), which is not part of any number syntax.
+		if strings.Contains(v, "_") {
+			return nil
+		}
+
 		var d decimal128.Decimal
 		if err := d.UnmarshalJSON([]byte(v)); err != nil {
 			return nil
